@@ -648,6 +648,8 @@ fn run_case(line: &str) -> Option<String> {
     let (host, args) = s.form()?;
     match (host, args) {
         ("direct", [c, acts]) => run_host(&mut DirectHost::new(&parse_cmd(c)?, false), &parse_actions(acts)?, false),
+        // extended fragment (waker-retaining combinators: StreamBuilder::then_stream = flatten_unordered): no exact model
+        ("ext", [c, acts]) => run_host(&mut DirectHost::new(&parse_cmd(c)?, false), &parse_actions(acts)?, false),
         ("core", [prog, acts]) => run_host(&mut CoreHost::new(parse_prog(prog)?, false), &parse_actions(acts)?, false),
         ("bridge", [prog, acts]) => run_host(
             &mut BridgeHost::new(Box::new(Bin(Bridge::new(Core::new()))), parse_prog(prog)?, false),
@@ -774,6 +776,41 @@ fn gen(seed: u64, n: usize, profile: &str) {
                 let c = g.cmd(4, 8, 4);
                 let h = g.history(10, false, &[]);
                 list(vec![atom("direct"), c.sexp(), list(h)])
+            }
+            "ext" => {
+                // chains in which a stream stage follows a stream (flatten_unordered), alone or under combinators
+                g.emit_tags = vec![10, 11, 12];
+                g.allow_abortable = false;
+                let mut chain = |g: &mut Gen| {
+                    let mut st = vec![];
+                    for _ in 0..g.r.below(2) {
+                        st.push(Stage::Map(1));
+                    }
+                    if g.r.chance(1, 2) {
+                        st.push(Stage::ThenStreamReq(g.opn(), g.opn()));
+                    } else {
+                        st.push(Stage::ThenStream(g.opn()));
+                    }
+                    if g.r.chance(1, 3) {
+                        st.push(Stage::ThenReq(g.opn()));
+                    }
+                    if g.r.chance(1, 4) {
+                        st.push(Stage::ThenStream(g.opn()));
+                    }
+                    Cmd::Chain(true, g.opn(), g.expr(), st, g.tag())
+                };
+                let c = match g.r.below(4) {
+                    0 => chain(&mut g),
+                    1 => Cmd::Then(Box::new(chain(&mut g)), Box::new(Cmd::Event(10, Expr::Lit(1)))),
+                    2 => Cmd::All(vec![chain(&mut g), Cmd::Req(1, Expr::Lit(0), 11)]),
+                    _ => Cmd::MapEv(0, Box::new(chain(&mut g))),
+                };
+                let mut h = g.history(8, false, &[]);
+                // finish by dropping everything that may still be outstanding
+                for k in 0..8 {
+                    h.push(list(vec![atom("drop"), atom(k)]));
+                }
+                list(vec![atom("ext"), c.sexp(), list(h)])
             }
             "law" => {
                 g.emit_tags = vec![10, 11, 12];
